@@ -28,7 +28,69 @@ SMALL = {
     'names': '(declare-const ab Int)\n(assert (> ab 1))\n',
     'let': '(declare-const a Int)\n(assert (let ((b a)) (> b 0)))\n',
     'fun': '(define-fun f ((a Int)) Int a)\n(assert (> (f 1) 0))\n',
+    'self-eq': '(declare-const x Int)\n(assert (= x (+ (* x 2) 1)))\n',
+    'self-eq2': '(declare-const y Int)\n(declare-const x Int)\n'
+                '(assert (= y (f (g y)) x))\n',
 }
+
+
+def occurs(pl, name):
+    if isinstance(pl, str):
+        return pl == name
+    return any(occurs(c, name) for c in pl)
+
+
+def guard_contracts(rec, iname, exprs, cname, kind, node, simp):
+    """The per-mutator cycle guards the documentation promises."""
+    by_id = {n.id: n for n in C.all_nodes(exprs)}
+    case = {'input': iname, 'mutator': cname,
+            'node': nodeio.write_smtlib_to_str([node]).strip()}
+    if cname == 'EliminateVariable':
+        # a variable is never replaced by a term that contains it
+        for k, r in simp.substs.items():
+            if isinstance(k, int) and k in by_id and r is not None and \
+                    by_id[k].is_leaf():
+                if occurs(C.plain(r), by_id[k].data):
+                    rec.violation(
+                        'C03/native/EliminateVariable/replacement-free-of-'
+                        'target', case,
+                        f'{by_id[k].data} replaced by '
+                        f'{nodeio.write_smtlib_to_str([r]).strip()}, which '
+                        'contains it')
+                    return
+    if cname in ('SimplifySymbolNames', 'StringSimplifyConstant'):
+        for k, r in simp.substs.items():
+            old = k if not isinstance(k, int) else by_id.get(k)
+            if old is not None and r is not None and old.is_leaf() and \
+                    r.is_leaf() and len(r.data) >= len(old.data):
+                rec.violation(f'C03/native/{cname}/text-gets-shorter', case,
+                              f'{old.data} -> {r.data}')
+                return
+    if cname == 'ReplaceByVariable' and node.is_leaf():
+        for k, r in simp.substs.items():
+            if r is not None and r.is_leaf() and not (r.data > node.data):
+                rec.violation('C03/native/ReplaceByVariable/lexicographic',
+                              case, f'{node.data} -> {r.data} (mode inc)')
+                return
+    if cname in ('ArithmeticSimplifyConstant', 'BVSimplifyConstants'):
+        from ddsmt import smtlib as sl
+        for k, r in simp.substs.items():
+            old = k if not isinstance(k, int) else by_id.get(k)
+            if old is None or r is None:
+                continue
+            try:
+                if cname == 'BVSimplifyConstants':
+                    v0 = sl.get_bv_constant_value(old)[0]
+                    v1 = sl.get_bv_constant_value(r)[0]
+                else:
+                    v0, v1 = sl.get_arith_const(old), sl.get_arith_const(r)
+            except Exception:  # noqa
+                continue
+            if not (v1 < v0 or (v1 == v0 and len(str(C.plain(r))) <
+                                len(str(C.plain(old))))):
+                rec.violation(f'C03/native/{cname}/value-decreases', case,
+                              f'{v0} -> {v1}')
+                return
 
 
 def tokens_of(exprs):
@@ -93,6 +155,7 @@ def main():
         size0 = nodes.count_nodes(exprs)
         for cname, kind, node, simp in all_props(exprs, muts, rec, iname):
             rec.case((iname, cname, kind, node.id, id(simp)))
+            guard_contracts(rec, iname, exprs, cname, kind, node, simp)
             try:
                 new = with_timeout(5, apply, exprs, simp)
             except Timeout:
